@@ -527,7 +527,16 @@ func checkHasMin(r *Result, rule string) {
 		switch direction {
 		case "up": // acc.GTE(min)
 			c, ok := v.(*ssa.Call)
-			return ok && CalleeName(c.Common()) == "(cosmossdk.io/math.Int).GTE" && len(c.Call.Args) == 2 && isAccLoad(c.Call.Args[0]) && isMinVal(c.Call.Args[1])
+			if !ok || len(c.Call.Args) != 2 {
+				return false
+			}
+			switch CalleeName(c.Common()) {
+			case "(cosmossdk.io/math.Int).GTE":
+				return isAccLoad(c.Call.Args[0]) && isMinVal(c.Call.Args[1])
+			case "(cosmossdk.io/math.Int).LTE": // min.LTE(acc): the same relation written from the other side
+				return isMinVal(c.Call.Args[0]) && isAccLoad(c.Call.Args[1])
+			}
+			return false
 		case "down": // !missing.IsPositive()
 			n, ok := v.(*ssa.UnOp)
 			if !ok || n.Op != token.NOT {
